@@ -458,6 +458,9 @@ pub fn compare(a: Option<&J>, op: Op, b: Option<&J>) -> bool {
                 _ => match (x.num(), y.num()) {
                     (Some(p), Some(q)) => match (x, y) {
                         (J::Int(p), J::Int(q)) => p < q,
+                        (J::UInt(p), J::UInt(q)) => p < q,
+                        (J::Int(_), J::UInt(_)) => true,
+                        (J::UInt(_), J::Int(_)) => false,
                         _ => p < q,
                     },
                     _ => false,
